@@ -24,7 +24,7 @@ def sample_cases(obs, n=4, pred=lambda o: True):
 
 def lang_product(tier):
     """the C01 product exploration (shared by C01 and C04): cached per repo tree, harness and spec"""
-    cases = L.family_cases(tier, L.TIERS[tier] + [("mini", 6 if tier == "quick" else 7)])
+    cases = L.family_cases(tier, L.TIERS_PRODUCT[tier])
     obs_path = L.observe(cases, "dfa", "lang-" + tier)
     cpath = obs_path + ".product-%s.json" % C.spec_hash()
     if os.path.exists(cpath):
@@ -90,7 +90,7 @@ def check_C01(tier):
         "traces_validated_against_impl": n_replayed,
         "samples": samples,
         "evaluations": len(cases), "distinct_nontrivial": nontrivial,
-        "rule": "cases = all balanced lexeme sequences of the families %s and mini; non-trivial = built by wax, read by the documented syntax, and the minimised automaton over Sigma has more than 2 states" % (L.TIERS[tier],),
+        "rule": "cases = all balanced lexeme sequences of the families %s, mini and flags; non-trivial = built by wax, read by the documented syntax, and the minimised automaton over Sigma has more than 2 states" % (L.TIERS[tier],),
         "expressions_built": len(built), "expressions_in_product": len(usable),
         "automata_too_large_for_product": len(built) - len(usable),
         "built_but_not_in_documented_syntax": len(noparse),
@@ -117,8 +117,10 @@ QUERY = {
 def query_check(prop, tier):
     t0 = time.time()
     inv, relevant, meaning = QUERY[prop]
-    cases = L.all_cases(tier)
-    obs_path = L.observe(cases, "dfa", "all-" + tier)
+    # the verdict-style contracts (only patterns reporting `always` enter the product) also take the nested contexts
+    nest = "exhaustive" if prop == "C09" else (prop == "C12")
+    cases = L.all_cases(tier, with_nest=nest)
+    obs_path = L.observe(cases, "dfa", ("alle-" if nest == "exhaustive" else "alln-" if nest else "all-") + tier)
     obs = L.read_ndjson(obs_path)
     by_id = {o["id"]: o for o in obs}
     out, stats = C.tlc("QueryCheck.tla", "QueryCheck_%s.cfg" % prop, env={"OBS": obs_path, "PROP": prop}, timeout=3000,
@@ -159,7 +161,7 @@ def query_check(prop, tier):
         "traces_validated_against_impl": n_replayed + (obs_stats["distinct"] // 2 if obs_stats else 0),
         "samples": samples,
         "evaluations": len(cases), "distinct_nontrivial": len(set(entered)),
-        "rule": "cases = lexeme families %s plus `any` combinations of a pool of %d patterns (text, compiled and nested); non-trivial = %s (these enter the product)" % (L.TIERS[tier], len(L.ANY_POOL), relevant),
+        "rule": "cases = lexeme families %s, %s concatenated units U1 M U2 of spec/GenSeq.tla (bodies, alternations and repetitions of bodies: every pair of depth termination states under concatenation, alternation and repetition) plus `any` combinations of a pool of %d patterns (text, compiled and nested); non-trivial = %s (these enter the product)" % (L.TIERS[tier], "a seeded 35%% sample of the" if tier == "quick" else "all", len(L.ANY_POOL), relevant),
         "contract": meaning,
         "disagreeing_records": sum(1 for r in recs if r["t"] == "DISAGREE"),
         "known_findings_hit": sorted(v.findings),
@@ -236,6 +238,7 @@ def run_obs(prop, cfg_prop, obs_path, by_id, v, describe):
 def check_C06(tier):
     t0 = time.time()
     cases = L.family_cases(tier, L.TIERS_OBS[tier])
+    cases += L.nest_cases(tier, len(cases) + 1)
     obs_path = L.observe(cases, "tok", "obs-" + tier)
     obs = L.read_ndjson(obs_path)
     by_id = {o["id"]: o for o in obs}
@@ -256,7 +259,7 @@ def check_C06(tier):
         "traces_validated_against_impl": len(obs) + len(built),
         "samples": samples,
         "evaluations": len(obs), "distinct_nontrivial": len({tuple(o["e"]) for o in obs if any(c in o["e"] for c in (123, 60))}),
-        "rule": "cases = all balanced lexeme sequences of the families %s (every arrangement of branches up to that size, every position, sibling branches); non-trivial = contains an alternation or a repetition" % (L.TIERS_OBS[tier],),
+        "rule": "cases = all balanced lexeme sequences of the families %s (every arrangement of branches up to that size) plus %s the two-level nested branch contexts of spec/GenNest.tla (every combination of left/right neighbours at both levels, alternations and repetitions at both levels, bodies beginning / ending with boundaries and wildcards); non-trivial = contains an alternation or a repetition" % (L.TIERS_OBS[tier], "a seeded 8% sample of" if tier == "quick" else "all of"),
         "built": len(built), "rejected": len(rejected),
         "disagreements": n1 + n2, "known_findings_hit": sorted(v.findings),
         "spec_self_consistency": "GlobRules!RulesAgree (semantic = context-free definition) and NeverSometimesRooted held on every case",
@@ -950,6 +953,8 @@ def check_C02(tier):
 def component_sound(prop, tier, v):
     """ComponentSound(A, C1..Ck) for the globs of the lexeme families: TLC product (CompCheck.tla)"""
     cases = L.family_cases(tier, [("core", 5), ("dots", 4)] if tier == "quick" else [("core", 6), ("dots", 5), ("case", 4)])
+    # nested branches with separators in front of further components: where component programs end
+    cases += L.nest_cases(tier, len(cases) + 1, quick_fraction=0.04)
     obs_path = L.observe(cases, "dfa,walk", "comp-" + tier)
     out, stats = C.tlc("CompCheck.tla", "CompCheck.cfg", env={"OBS": obs_path}, timeout=3000, java_opts=["-Xmx12g"])
     if not stats["ok"]:
